@@ -9,6 +9,7 @@ import NfpmModel.RpmRel
 import NfpmModel.RpmSig
 import NfpmModel.DebControl
 import NfpmModel.ApkControl
+import NfpmModel.RpmGen
 import NfpmModel.Package
 import NfpmModel.Spec.PlanSpec
 import NfpmModel.Spec.PayloadSpec
@@ -430,6 +431,34 @@ def handle (op : String) (args : List String) : Except String String :=
     let look (n : Bytes) : Option (Bytes × Nat) := (scripts.find? (fun p => p.1 = n)).map (fun p => (p.2.1, p.2.2.1))
     let sha (body : Bytes) : Bytes := ((scripts.find? (fun p => p.2.1 = body)).map (fun p => p.2.2.2)).getD []
     pure (hex (Pkg.cut (ApkCtl.members sha pkginfo look)))
+  -- rpm: the whole main header from the resolved settings, the files found, the configured relations, the changelog tags
+  | "rpmheader" => do
+    let pFile : P RpmFiles.RFile := do
+      let name ← pBytes; let mode ← pNat; let flags ← pNat; let owner ← pBytes; let group ← pBytes; let mtime ← pNat
+      let size ← pNat; let digest ← pBytes; let link ← pBytes
+      pure { name, mode, flags, owner, group, mtime, size, digest, link }
+    let pOptNat : P (Option Nat) := do
+      let t ← pBytes
+      if t = [] then pure none else pure (some (Ar.decVal t))
+    let r ← run1 (do
+      let name ← pBytes; let version ← pBytes; let release ← pBytes; let epoch ← pOptNat
+      let summary ← pBytes; let description ← pBytes; let buildHost ← pBytes; let buildTime ← pOptNat
+      let prefixes ← pList pBytes; let compressor ← pBytes; let arch ← pBytes; let os ← pBytes
+      let vendor ← pBytes; let licence ← pBytes; let packager ← pBytes; let group ← pBytes; let url ← pBytes
+      let payloadSize ← pNat; let payloadDigest ← pBytes
+      let pretrans ← pBytes; let prein ← pBytes; let postin ← pBytes; let preun ← pBytes; let postun ← pBytes
+      let posttrans ← pBytes; let verify ← pBytes
+      let files ← pList pFile
+      let p ← pList pBytes; let d ← pList pBytes; let rc ← pList pBytes; let rp ← pList pBytes; let sg ← pList pBytes; let c ← pList pBytes
+      let chT ← pList pNat; let chN ← pList pBytes; let chX ← pList pBytes
+      let g : RpmGen.Gen := { name := name, version := version, release := release, epoch := epoch, summary := summary, description := description, buildHost := buildHost, buildTime := buildTime, prefixes := prefixes, compressor := compressor, arch := arch, os := os, vendor := vendor, licence := licence, packager := packager, group := group, url := url, payloadSize := payloadSize, payloadDigest := payloadDigest, pretrans := pretrans, prein := prein, postin := postin, preun := preun, postun := postun, posttrans := posttrans, verify := verify }
+      pure (g, files, (p, d, rc, rp, sg, c), (chT, chN, chX))) args
+    let (g, files, (p, d, rc, rp, sg, c), (chT, chN, chX)) := r
+    match RpmRel.cats g.name (RpmGen.fullVersion g) p d rc rp sg c with
+    | none => pure "error"
+    | some cs =>
+      let es := RpmGen.mainHeader g files cs chT chN chX
+      pure (s!"{es.length}" ++ String.join (es.map (fun e => s!" {e.tag} {e.typ} {e.count} {hex e.data}")))
   | _ => .error s!"unknown op {op}"
 
 partial def loop (hin : IO.FS.Stream) (hout : IO.FS.Stream) : IO Unit := do
